@@ -374,7 +374,38 @@ def check_sorted(rep, spec, base):
             rep.add("Tree.from_swc", "sorted-read-isomorphic", spec, bad[0], bad[1])
 
 
-CHECKS = dict(good=check_good, bad=check_bad, undecodable=check_undecodable, sorted=check_sorted)
+def check_large(rep, spec, base):
+    """spec: kind='large', nrows, src, bad ('none' | 'last' | 'middle'), tree.  A text of `nrows` rows and as many comment lines (generated from the
+    spec, sizes from some 100 KB to several MB: beyond every usual read buffer): every row and every comment comes back; ONE malformed line in the middle
+    or at the very end raises however far into the text it stands."""
+    from swcgeom.core import Tree
+    from swcgeom.core.swc_utils import read_swc
+
+    n = spec["nrows"]
+    lines = big_body(n).decode("utf-8").splitlines(keepends=True)
+    if spec["bad"] != "none":
+        lines.insert(len(lines) if spec["bad"] == "last" else len(lines) // 2, " ".join(BAD_TEMPLATE[:6]) + "\n")
+    text = "".join(lines)
+    fns = [("read_swc", read_swc)] + ([("Tree.from_swc", Tree.from_swc)] if spec.get("tree") else [])
+    for name, fn in fns:
+        res, exc, _ = _call(fn, text, spec["src"], base, {})
+        if spec["bad"] != "none":
+            if exc is None:
+                got = len(res[0]) if name == "read_swc" else res.number_of_nodes()
+                rep.add(name, "malformed-line-raises", spec, f"no error; {got} of {n} rows returned", "an exception", "large text")
+            continue
+        if exc is not None:
+            rep.add(name, "operation-raises", spec, _exc(exc), f"{n} rows", "large text")
+            continue
+        got_n = len(res[0]) if name == "read_swc" else res.number_of_nodes()
+        if got_n != n:
+            rep.add(name, "one-node-per-row", spec, f"{got_n} rows", f"{n} rows", "large text")
+        comments = [c.strip() for c in (res[1] if name == "read_swc" else res.comments)]
+        if comments != [f"c{i:04d}" for i in range(n)]:
+            rep.add(name, "comments-in-order", spec, f"{len(comments)} comments, last {comments[-1:]}", f"{n} comments, last ['c{n - 1:04d}']", "large text")
+
+
+CHECKS = dict(good=check_good, bad=check_bad, undecodable=check_undecodable, sorted=check_sorted, large=check_large)
 
 
 # ---------------------------------------------------------------- text assembly
@@ -565,6 +596,15 @@ def run(ctx):
                     go("undecodable", dict(kind="undecodable", nrows=nrows, offset=off, where=where, src=src, tree=True))
         for off in (0, 5, 20):  # and in a tiny body
             go("undecodable", dict(kind="undecodable", nrows=2, offset=off, where="raw", src="bytes", tree=True))
+
+        # (3b) large texts (about 100 KB, 1.2 MB; 5 MB in the thorough tier: sizes beyond the usual read-buffer sizes): everything comes back, a
+        # malformed line far into the text still raises; every source kind
+        for nrows in (2500, 30000) + ((120000,) if thorough else ()):
+            for src in SRCS:
+                for bad_at in ("none", "last", "middle"):
+                    if not thorough and nrows > 2500 and bad_at == "middle":
+                        continue
+                    go("large", dict(kind="large", nrows=nrows, src=src, bad=bad_at, tree=(src == "text" and nrows <= 30000)))
 
         # (4) sort_nodes=True: arbitrary distinct ids, arbitrary row order
         def sorted_text(pid, perm, ids, kx):
